@@ -408,8 +408,17 @@ impl WorldA {
             .collect();
         if except > 0 {
             let ex = (except - 1) as usize % self.conns.len();
+            let before = self.ep_ref(ex, SV).map(|e| e.channel_available_memory(cid));
             self.server.broadcast_message_except(self.conns[ex].id, cid, bytes.clone());
             obs.count("op.broadcast_except");
+            // C11: the excluded client's channel must not have taken the message
+            if let (Some(b), Some(e)) = (before, self.ep_ref(ex, SV)) {
+                obs.count("oracle.C11.except_excluded");
+                let after = e.channel_available_memory(cid);
+                if after != b {
+                    obs.violate("C11", "broadcast-except-reached-excluded-client", super::model::kind_name(kind), format!("conn {} channel {} available {} -> {}", ex, cid, b, after));
+                }
+            }
         } else {
             self.server.broadcast_message(cid, bytes.clone());
             obs.count("op.broadcast");
